@@ -537,6 +537,38 @@ def m_vec_contains(ctx):
     if isinstance(v, VecV): return ctx.ret(simplify(Or([val_eq(ctx.eng, ctx.st, y, x) for y in v.items])) if v.items else BoolVal(False))
     raise EngineError(f'contains on {v!r}')
 
+def key_term(eng, st, v):
+    """unsigned integer term of a sort key (integers and integer newtypes such as NodeIndex)"""
+    v = eng.deref(st, v)
+    while isinstance(v, Agg) and len(v.f) == 1: v = v.f[0]
+    if isinstance(v, Lazy): return v.scalar()
+    if z3.is_expr(v) and z3.is_bv(v): return v
+    raise EngineError(f'sort key is not an unsigned integer: {v!r}')
+@model(r'^(?:std::slice::|core::slice::)?<impl \[.*\]>::sort_by_key::<.*>$|^(?:std::slice::|core::slice::)?<impl \[.*\]>::sort_unstable_by_key::<.*>$')
+def m_sort_by_key(ctx):
+    """stable sort by an unsigned key: the keys are computed by the real closure, then one fork per permutation that is the sorted order"""
+    r = ctx.args[0]; v = ctx.deref(r); clo = ctx.args[1]; eng = ctx.eng; dst, tgt = ctx.dst, ctx.tgt
+    if not isinstance(v, VecV) or not (isinstance(r, Ref) and isinstance(r.base, int)): raise EngineError(f'sort_by_key on {v!r}')
+    n = len(v.items)
+    if n > 4: raise EngineError('sort_by_key: more than 4 elements')
+    def keys_done(st, fr, keys):
+        import itertools as _it
+        alts = []
+        for perm in _it.permutations(range(n)):
+            cs = []
+            for a in range(n - 1):
+                i, j = perm[a], perm[a + 1]
+                cs.append(ULT(keys[i], keys[j]) if i > j else ULE(keys[i], keys[j]))
+            def ap(s2, f2, perm=perm):
+                eng.write_ref(s2, r, VecV(tuple(v.items[i] for i in perm))); return _finish(eng, s2, f2, dst, tgt, UNIT)
+            alts.append((And(cs) if cs else BoolVal(True), ap))
+        return ('forks', alts)
+    def step(st, fr, i, keys):
+        if i == n: return keys_done(st, fr, keys)
+        def after(eng_, s2, f2, kd, rv): return step(s2, f2, i + 1, keys + [key_term(eng_, s2, rv)])
+        return call_closure(eng, st, fr, clo, (Ref(r.base, r.path + (('i', i),)),), after)
+    return step(ctx.st, ctx.fr, 0, [])
+
 # ---------------------------------------------------------------------------- maps
 
 def map_lookup_alts(eng, st, m, key):
@@ -569,6 +601,33 @@ MAPTY = r'(?:indexmap::(?:map::)?)?IndexMap|(?:std::collections::)?HashMap|(?:st
 def m_map_new(ctx):
     hashed = bool(re.match(r'^<?(?:std::collections::)?(?:hash_map::|hash_set::)?Hash(?:Map|Set)', ctx.callee))
     return ctx.ret(MapV((), hashed))
+class EntryV:
+    """indexmap / std `Entry`: the map reference and the key; resolved by or_insert / or_default / or_insert_with"""
+    __slots__ = ('r', 'key')
+    def __init__(s, r, key): s.r = r; s.key = key
+@model(r'^(?:' + MAPTY + r')::<.*>::entry$')
+def m_map_entry(ctx):
+    r = ctx.args[0]
+    if not (isinstance(r, Ref) and isinstance(r.base, int)): raise EngineError('entry() on a map that is not owned by the execution')
+    return ctx.ret(EntryV(r, ctx.args[1]))
+@model(r'^(?:indexmap::map::|std::collections::hash_map::|std::collections::btree_map::)?Entry::<.*>::(or_insert|or_default)$')
+def m_entry_or_insert(ctx):
+    e = ctx.args[0]
+    if not isinstance(e, EntryV): raise EngineError(f'or_insert on {e!r}')
+    r = e.r; m = ctx.deref(r); eng = ctx.eng; dst, tgt = ctx.dst, ctx.tgt
+    if not isinstance(m, MapV): raise EngineError(f'entry of {m!r}')
+    if ctx.callee.endswith('or_default'): raise EngineError('or_default: default value of the entry type is not modelled')
+    val = ctx.args[1]; acts = []
+    for cond, i in map_lookup_alts(eng, ctx.st, m, e.key):
+        if i is None:
+            def miss(s2, f2):
+                n = len(m.entries); eng.write_ref(s2, r, MapV(m.entries + ((e.key, val),), m.hashed))
+                return _finish(eng, s2, f2, dst, tgt, Ref(r.base, r.path + (('i', n), 1)))
+            acts.append((cond, miss))
+        else:
+            acts.append((cond, (lambda s2, f2, i=i: _finish(eng, s2, f2, dst, tgt, Ref(r.base, r.path + (('i', i), 1))))))
+    return ('forks', acts)
+
 @model(r'^(?:' + MAPTY + r')::<.*>::insert$')
 def m_map_insert(ctx):
     r = ctx.args[0]; m = ctx.deref(r); eng = ctx.eng; dst, tgt = ctx.dst, ctx.tgt
